@@ -47,7 +47,10 @@ var c15Progs = map[string]string{
 	"patterns": `function f(x) { tick(x); return x % 2 } f(NR) { m++ }
 $1 > 3
 END { print m }`,
-	"pattern-only":       `$1 % 3 == 0`,
+	"pattern-only": `$1 % 3 == 0`,
+	"print-all":    `1`,
+	"print-all-end": `1
+END { print NR }`,
 	"range":              `$1 == 2, $1 == 5 { tick(NR) } END { print NR }`,
 	"end":                `END { for (i = 1; i <= N; i++) { tick(i); print "s" i } }`,
 	"outputs":            `BEGIN { for (i = 1; i <= N; i++) { print "s" i; print "f" i > "out1"; print "c" i | cmd; tick(i) } }`,
@@ -61,7 +64,7 @@ END { print m }`,
 	"blocked-getline":    `BEGIN { print "s1"; tick(1); cmdhang | getline x; tick(2); for (i = 0; i < 100000; i++) x++ }`,
 }
 
-var c15Archs = []string{"while", "for", "recursion", "forin", "forin-nobody", "forin-nested", "records", "patterns", "pattern-only", "range", "end", "outputs", "getline-file"}
+var c15Archs = []string{"print-all", "print-all-end", "while", "for", "recursion", "forin", "forin-nobody", "forin-nested", "records", "patterns", "pattern-only", "range", "end", "outputs", "getline-file"}
 var c15ChildArchs = []string{"system-loop", "getline-cmd", "big-to-cmd", "blocked-system", "blocked-close", "blocked-getline", "blocked-grandchild"}
 
 type c15State struct {
@@ -87,16 +90,18 @@ var c15funcs = map[string]any{
 }
 
 type c15Result struct {
-	Stdout, Files string
-	Status        int
-	Err           error
-	Panic         string
-	Steps         int // VM steps when the call returned
-	StepsAtCancel int // VM steps when the context was closed (-1: never)
-	TicksAtCancel int
-	Aborted       bool // the hook aborted a run that ignored the cancellation
-	ChildSaved    string
-	Blocked       string // blocked archetypes: how the wait ended
+	Stdout, Files  string
+	Status         int
+	Err            error
+	Panic          string
+	Steps          int // VM steps when the call returned
+	StepsAtCancel  int // VM steps when the context was closed (-1: never)
+	WritesAtCancel int // Write calls on standard output when the context was closed
+	Writes         int // Write calls on standard output when the call returned
+	TicksAtCancel  int
+	Aborted        bool // the hook aborted a run that ignored the cancellation
+	ChildSaved     string
+	Blocked        string // blocked archetypes: how the wait ended
 }
 
 type c15Engine struct{}
@@ -159,6 +164,8 @@ func (c15Engine) Gen(r *core.Rand, tier string, i int) any {
 	sc.Lines = r.Range(0, 1500)
 	sc.Deadline = r.Chance(1, 4)
 	switch sc.Arch {
+	case "print-all", "print-all-end":
+		sc.Lines = r.Range(2500, 6000)
 	case "recursion":
 		sc.N = r.Range(1, 2+8000/(sc.Depth+1))
 	case "forin", "forin-nobody":
@@ -278,6 +285,7 @@ func c15Exec(sc *c15Scn, cancel string, cancelStep, cancelTick int, log *core.Lo
 	markCancel := func() {
 		res.StepsAtCancel = steps
 		res.TicksAtCancel = st.ticks
+		res.WritesAtCancel = sink.Writes
 	}
 	if cancel != "plain" {
 		ctx = core.NewSimContext()
@@ -405,6 +413,7 @@ func c15Exec(sc *c15Scn, cancel string, cancelStep, cancelTick int, log *core.Lo
 		res.Panic = ""
 	}
 	res.Steps = steps
+	res.Writes = sink.Writes
 	res.Stdout = sink.String()
 	if b, ok := fs.Get("cmdsaved"); ok {
 		res.ChildSaved = string(b)
@@ -481,6 +490,12 @@ func (e c15Engine) Run(scAny any, keep bool) core.Outcome {
 		if res.Aborted || after > c15Bound {
 			return &core.Failure{Oracle: "prompt", Detail: fmt.Sprintf("%s: context closed at VM step %d, the call was still running %d steps later (bound %d)%s", d, res.StepsAtCancel, after, c15Bound,
 				map[bool]string{true: " and was aborted by the harness", false: ""}[res.Aborted])}
+		}
+		// (2b) work done outside the instruction loop counts too: every record printed after
+		// the close is at least one interpreter step, so the writes to standard output after the
+		// close are bounded as well (two per printed line)
+		if w := res.Writes - res.WritesAtCancel; w > 2*c15Bound+2 {
+			return &core.Failure{Oracle: "prompt", Detail: fmt.Sprintf("%s: context closed after %d writes to standard output, %d more followed (bound %d steps)", d, res.WritesAtCancel, w, c15Bound)}
 		}
 		// (3) identity
 		if res.Err != nil && res.Err != wantErr {
